@@ -39,8 +39,9 @@ type Proto struct {
 
 // Local is the node-local part of the configuration.
 type Local struct {
-	RUB bool   // RemoveUntraceableBlocks
-	GCP uint32 // GarbageCollectionPeriod
+	RUB   bool   // RemoveUntraceableBlocks
+	GCP   uint32 // GarbageCollectionPeriod
+	Timer bool   // flushes (and GC) are left to the node's own 1 s timer instead of VerifPersist
 }
 
 func cfgHook(p Proto, l Local) func(*config.Blockchain) {
